@@ -38,14 +38,19 @@ def determinism(ctx):
     nvar = ctx.n(5, 24)
     orders_seen = 0
     for k in range(nseeds):
-        kind = 'shared-enable' if k % 3 == 0 else 'random'
+        kind = ('shared-enable', 'random', 'names')[k % 3]
         seed = ctx.rng.randrange(1 << 30)
         base = run_child(seed, 0, 0, kind)
+        if base.get('skip'):
+            ctx.count('skipped', base['skip'])
+            continue
         orders = {base['_order']}
         for v in range(1, nvar):
             hs = ctx.rng.randrange(1, 1 << 20)
             noise = ctx.rng.randrange(1, 1 << 20) if v % 2 else 0
             other = run_child(seed, hs, noise, kind)
+            if other.get('skip'):
+                continue
             orders.add(other['_order'])
             ctx.evaluations += 1
             for key in base:
@@ -135,7 +140,11 @@ def read_only(ctx):
         try:
             with contextlib.redirect_stdout(io.StringIO()):
                 with pyrtl.set_working_block(b2, no_sanity_check=True):
-                    pyrtl.output_to_firrtl(io.StringIO(), block=b2)
+                    roms = sorted({n.op_param[1] for n in b2.logic_subset('m') if isinstance(n.op_param[1], pyrtl.RomBlock)},
+                                  key=lambda m: m.id)
+                    roms = [m for m in roms if callable(m.data) or isinstance(m.data, (list, tuple))]
+                    ctx.count('firrtl-rom_blocks', len(roms))
+                    pyrtl.output_to_firrtl(io.StringIO(), rom_blocks=roms, block=b2)
             got, gresp, _ = passlib.spec_trace(ctx, b2, steps, {}, memmap_by_id, watch=outs)
             ctx.evaluations += 1
             if got is None:
@@ -155,10 +164,45 @@ def read_only(ctx):
             break
 
 
+def firrtl_roms(ctx):
+    """output_to_firrtl(rom_blocks=[...]) materialises function-valued ROM data in place: every word must survive"""
+    rng = ctx.rng
+    for k in range(ctx.n(8, 60)):
+        aw = rng.choice([1, 2, 3, 5])
+        dw = rng.choice([1, 2, 4, 8])
+        table = [rng.getrandbits(dw) for _ in range(1 << aw)]
+        kind = rng.choice(['func', 'func', 'list', 'tuple'])
+        pyrtl.reset_working_block()
+        data = (lambda a, t=tuple(table): t[a]) if kind == 'func' else (list(table) if kind == 'list' else tuple(table))
+        rom = pyrtl.RomBlock(dw, aw, data, name='rom', asynchronous=True, pad_with_zeros=rng.random() < 0.5)
+        addr = pyrtl.Input(aw, 'addr')
+        o = pyrtl.Output(dw, 'data')
+        o <<= rom[addr]
+        blk = pyrtl.working_block()
+        replay = {'kind': 'firrtl-rom', 'aw': aw, 'dw': dw, 'table': table, 'data_kind': kind}
+        try:
+            with contextlib.redirect_stdout(io.StringIO()):
+                pyrtl.output_to_firrtl(io.StringIO(), rom_blocks=[rom], block=blk)
+            sim = pyrtl.Simulation(block=blk)
+            got = []
+            for a in range(1 << aw):
+                sim.step({'addr': a})
+                got.append(sim.inspect('data'))
+        except Exception as e:  # noqa
+            ctx.violation('firrtl-rom-raises', 'after output_to_firrtl(rom_blocks=[rom]) the block raises %s: %s' % (type(e).__name__, str(e)[:120]), replay)
+            continue
+        ctx.evaluations += 1
+        if got != table:
+            bad = [a for a in range(1 << aw) if got[a] != table[a]][0]
+            ctx.violation('firrtl-rom-changed', 'after output_to_firrtl(rom_blocks=[rom]) a %d-bit x 2^%d %s ROM reads %d at address %d, its data is %d' % (
+                dw, aw, kind, got[bad], bad, table[bad]), replay)
+
+
 def main(ctx):
     proofs_ok = proof_gate(ctx, gen_modules=[])
     orders = determinism(ctx)
     read_only(ctx)
+    firrtl_roms(ctx)
     ctx.extra['set_orders_exercised'] = orders
     ctx.oblige('observed:byte-identical exports and identical traces across hash seeds and allocation patterns; exports read-only',
                not ctx.violations, '%d child builds / reader calls' % ctx.evaluations)
